@@ -189,14 +189,15 @@ Init ==
   /\ out = (IF kind = "du" THEN "du" ELSE "dt")
   /\ stage = 1 /\ txt = <<>> /\ dev = 0
 
-Finish(t, o) == txt' = t /\ out' = o /\ stage' = 0 /\ dev' = 0 /\ UNCHANGED kind
+\* a finished text carries the label of the action that produced it (vacuity guard of the check: every label must occur)
+Finish(t, o, lbl) == txt' = t /\ out' = o /\ stage' = 0 /\ dev' = 0 /\ kind' = lbl
 
 \* --- one action per production of the date-time grammar ------------------------------------------------
 DtProduction(i) ==
   /\ kind = "dt" /\ stage = i
   /\ \E ch \in DtStages[i] :
         /\ dev + ch[1] <= MaxDevDt
-        /\ IF i = Len(DtStages) THEN Finish(txt \o ch[2], "dt")
+        /\ IF i = Len(DtStages) THEN Finish(txt \o ch[2], "dt", "dt")
            ELSE txt' = txt \o ch[2] /\ dev' = dev + ch[1] /\ stage' = i + 1 /\ UNCHANGED <<kind, out>>
 DtYearP == DtProduction(1)   DtSepYM == DtProduction(2)   DtMonthP == DtProduction(3)   DtSepMD == DtProduction(4)
 DtDayP == DtProduction(5)    DtSepDT == DtProduction(6)   DtHourP == DtProduction(7)    DtSepHM == DtProduction(8)
@@ -208,7 +209,7 @@ DuProduction(i) ==
   /\ kind = "du" /\ stage = i
   /\ \E ch \in DuStages[i] :
         /\ dev + ch[1] <= MaxDevDu
-        /\ IF i = Len(DuStages) THEN Finish(txt \o ch[2], "du")
+        /\ IF i = Len(DuStages) THEN Finish(txt \o ch[2], "du", "du")
            ELSE txt' = txt \o ch[2] /\ dev' = dev + ch[1] /\ stage' = i + 1 /\ UNCHANGED <<kind, out>>
 DuSignP == DuProduction(1)  DuPP == DuProduction(2)  DuWeeksP == DuProduction(3)  DuDaysP == DuProduction(4)
 DuTP == DuProduction(5)     DuHoursP == DuProduction(6)  DuMinutesP == DuProduction(7)  DuSecondsP == DuProduction(8)
@@ -222,7 +223,7 @@ Calendar ==
   /\ kind = "cal" /\ stage = 1
   /\ \E y \in CalYears, m \in 1..12, d \in {1, 27, 28, 29, 30, 31, 32}, h \in {0, 23} :
         Finish((IF y[1] THEN <<ChMinus>> ELSE IF Len(y[2]) > 4 THEN <<ChPlus>> ELSE <<>>) \o DigitCodes(y[2]) \o <<ChMinus>> \o D2(m) \o <<ChMinus>> \o D2(d)
-               \o <<ChT>> \o D2(h) \o <<ChColon>> \o D2(IF h = 0 THEN 0 ELSE 59) \o <<ChColon>> \o D2(IF h = 0 THEN 0 ELSE 59) \o <<ChZ>>, "dt")
+               \o <<ChT>> \o D2(h) \o <<ChColon>> \o D2(IF h = 0 THEN 0 ELSE 59) \o <<ChColon>> \o D2(IF h = 0 THEN 0 ELSE 59) \o <<ChZ>>, "dt", "cal")
 
 \* --- limit neighbourhoods: instants around min / max of every (unit, representation), on the nanosecond grid
 HalfTick(u) == DivModSmall(MulChain(One, NsChain(u)), 2).q
@@ -232,16 +233,16 @@ LimitInstants ==
   UNION { { Add(MulChain(Add(lim, FromInt(k)), NsChain(u)), dl) :
                lim \in {I64Min, I64Max, I32Min, I32Max, U64Max, I8Min, I8Max, Zero}, k \in {-1, 0, 1}, dl \in LimitDeltas(u) } :
           u \in {"ns", "us", "ms", "s", "min", "h", "d"} }
-LimitDt == kind = "lim" /\ stage = 1 /\ \E n \in LimitInstants : Finish(IsoPrintCodes(n, "ns"), "dt")
-LimitDu == kind = "lim" /\ stage = 1 /\ \E n \in LimitInstants : Finish(DurPrintCodes(n, "ns"), "du")
+LimitDt == kind = "lim" /\ stage = 1 /\ \E n \in LimitInstants : Finish(IsoPrintCodes(n, "ns"), "dt", "lim-dt")
+LimitDu == kind = "lim" /\ stage = 1 /\ \E n \in LimitInstants : Finish(DurPrintCodes(n, "ns"), "du", "lim-du")
 
 \* --- fractions: every digit string of 1..FracLen digits, boundary patterns and seeded long ones -------
 FracPrefixDt == <<49, 57, 55, 48, 45, 48, 49, 45, 48, 49, 84, 48, 48, 58, 48, 48, 58, 48, 48, 46>>   \* 1970-01-01T00:00:00.
 FracPrefixDu == <<80, 84, 48, 46>>                                                                  \* PT0.
 FracDigit == kind = "frac" /\ stage = 1 /\ Len(txt) < FracLen /\ \E d \in 0..9 :
                 txt' = Append(txt, 48 + d) /\ UNCHANGED <<kind, out, stage, dev>>
-FracEndDt == kind = "frac" /\ stage = 1 /\ Len(txt) >= 1 /\ Finish(FracPrefixDt \o txt \o <<ChZ>>, "dt")
-FracEndDu == kind = "frac" /\ stage = 1 /\ Len(txt) >= 1 /\ Finish(FracPrefixDu \o txt \o <<ChS>>, "du")
+FracEndDt == kind = "frac" /\ stage = 1 /\ Len(txt) >= 1 /\ Finish(FracPrefixDt \o txt \o <<ChZ>>, "dt", "frac-dt")
+FracEndDu == kind = "frac" /\ stage = 1 /\ Len(txt) >= 1 /\ Finish(FracPrefixDu \o txt \o <<ChS>>, "du", "frac-du")
 \* i-th seeded fraction: 5..9 digits from a small congruential scheme (all products stay below 2^31)
 SeededFrac(i) ==
   LET len == 5 + ((i + Seed) % 5)
@@ -251,10 +252,10 @@ SeededFrac(i) ==
 BoundaryFracs ==
   { [j \in 1..len |-> 48 + (IF j <= keep THEN (IF j = keep THEN lastkept ELSE fill) ELSE IF j = keep + 1 THEN brk ELSE IF j = len THEN tail ELSE mid)] :
        keep \in {0, 3, 6, 8}, len \in 1..9, lastkept \in {0, 9}, fill \in {0, 9}, brk \in {4, 5}, mid \in {0, 9}, tail \in {0, 1, 9} }
-FracSeededDt == kind = "frac" /\ stage = 1 /\ txt = <<>> /\ \E i \in 1..FracSample : Finish(FracPrefixDt \o SeededFrac(i) \o <<ChZ>>, "dt")
-FracSeededDu == kind = "frac" /\ stage = 1 /\ txt = <<>> /\ \E i \in 1..FracSample : Finish(FracPrefixDu \o SeededFrac(i) \o <<ChS>>, "du")
-FracBoundaryDt == kind = "frac" /\ stage = 1 /\ txt = <<>> /\ \E f \in BoundaryFracs : Finish(FracPrefixDt \o f \o <<ChZ>>, "dt")
-FracBoundaryDu == kind = "frac" /\ stage = 1 /\ txt = <<>> /\ \E f \in BoundaryFracs : Finish(FracPrefixDu \o f \o <<ChS>>, "du")
+FracSeededDt == kind = "frac" /\ stage = 1 /\ txt = <<>> /\ \E i \in 1..FracSample : Finish(FracPrefixDt \o SeededFrac(i) \o <<ChZ>>, "dt", "fracseed-dt")
+FracSeededDu == kind = "frac" /\ stage = 1 /\ txt = <<>> /\ \E i \in 1..FracSample : Finish(FracPrefixDu \o SeededFrac(i) \o <<ChS>>, "du", "fracseed-du")
+FracBoundaryDt == kind = "frac" /\ stage = 1 /\ txt = <<>> /\ \E f \in BoundaryFracs : Finish(FracPrefixDt \o f \o <<ChZ>>, "dt", "fracbound-dt")
+FracBoundaryDu == kind = "frac" /\ stage = 1 /\ txt = <<>> /\ \E f \in BoundaryFracs : Finish(FracPrefixDu \o f \o <<ChS>>, "du", "fracbound-du")
 
 \* --- mutation: delete / insert / replace one character of a valid text ---------------------------------
 MutAlphabet == {48, 49, 57, 45, 43, 46, 44, 58, 84, 90, 80, 68, 83, 77, 32, 120, 0, 233, 1632, 65297, 120793}
@@ -273,10 +274,10 @@ Mutate ==
   /\ kind = "mut" /\ stage = 1
   /\ \E b \in 1..MutBases :
         LET base == MutBaseList[b][2] o == MutBaseList[b][1] n == Len(base) IN
-        \/ Finish(base, o)
-        \/ \E p \in 1..n : Finish(SubSeq(base, 1, p - 1) \o SubSeq(base, p + 1, n), o)                              \* delete
-        \/ \E p \in 1..(n + 1), c \in MutAlphabet : Finish(SubSeq(base, 1, p - 1) \o <<c>> \o SubSeq(base, p, n), o)   \* insert
-        \/ \E p \in 1..n : \E c \in MutAlphabet \ {base[p]} : Finish(SubSeq(base, 1, p - 1) \o <<c>> \o SubSeq(base, p + 1, n), o) \* replace
+        \/ Finish(base, o, "mut-base")
+        \/ \E p \in 1..n : Finish(SubSeq(base, 1, p - 1) \o SubSeq(base, p + 1, n), o, "mut-delete")                \* delete
+        \/ \E p \in 1..(n + 1), c \in MutAlphabet : Finish(SubSeq(base, 1, p - 1) \o <<c>> \o SubSeq(base, p, n), o, "mut-insert")   \* insert
+        \/ \E p \in 1..n : \E c \in MutAlphabet \ {base[p]} : Finish(SubSeq(base, 1, p - 1) \o <<c>> \o SubSeq(base, p + 1, n), o, "mut-replace") \* replace
 
 Next ==
   \/ DtYearP \/ DtSepYM \/ DtMonthP \/ DtSepMD \/ DtDayP \/ DtSepDT \/ DtHourP \/ DtSepHM \/ DtMinP \/ DtSepMS \/ DtSecP \/ DtFracP \/ DtEndP
